@@ -79,6 +79,14 @@ func c07Scenarios(thorough bool) []c07Scenario {
 				{"W", "UPDATE t SET v = 'x' WHERE id < 30", "EXCLUSIVE"},
 				{"W", "COMMIT", "committed"},
 			}},
+			// the same with a database file that carries no write permission bit when sqlittle opens it (the writer
+			// opened it before, or is root): permission bits say nothing about writers
+			c07Scenario{"spill-on-a-read-only-file/" + m, pr + "; PRAGMA cache_size=1", []c07Step{
+				{"W", "BEGIN", ""},
+				{"W", "INSERT INTO t VALUES (502, 'first', 'p')", "RESERVED"},
+				{"W", manyInserts, "EXCLUSIVE: dirty pages spilled into the db file"},
+				{"W", "COMMIT", "committed"},
+			}},
 			c07Scenario{"spill-rollback/" + m, pr + "; PRAGMA cache_size=1", []c07Step{
 				{"W", "BEGIN", ""},
 				{"W", manyInserts, "EXCLUSIVE with spilled pages"},
@@ -142,7 +150,7 @@ func c07Scenarios(thorough bool) []c07Scenario {
 }
 
 func runC07(r *ev.Run) {
-	r.Rule = "writer scripts of a real SQLite connection in another process (small commit, two transactions back to back with synchronous FULL and OFF, rollback, spilling bulk insert with cache_size=1, a schema change spilled with a multi-page sqlite_master and then rolled back, commit blocked by a third reader = PENDING, locking_mode=EXCLUSIVE), journal modes DELETE (+TRUNCATE, PERSIST thorough), parked after EVERY statement; the table scanned by the long-lived handles spans more pages than the handle's page cache holds (so its older cache generation is in use); in every parked state every read operation (all low level and high level calls, the driver) runs on a fresh handle and on a long-lived handle; in addition one long-lived handle per SUBSET of the steps reads (Select on both tables, IndexedSelect) only at the steps of its subset and starting with each of the three operations in turn, so every read schedule of a long-lived handle is covered; a script that commits schema changes (new table, a table and an index rebuilt under their old names with other content); and one handle OPENED in every parked state, read at every later step; the writer's lock level is read from /proc/locks; oracle: PENDING or EXCLUSIVE => error and zero rows; RESERVED/SHARED/UNLOCKED => success and exactly the last committed content (dumped by a separate SQLite reader). second family (mid-read): a Select / IndexedSelect parked in its row callback, on a fresh handle and on a handle opened before another process grew the file threefold; the writer (one page cache: it wants to spill) begins and updates every row at row j and tries COMMIT or ROLLBACK at row k, for every j <= k (and, for a third of them, with a select-like call made from the first row's callback on the same handle): no row of the unfinished transaction is delivered, the result equals the state committed when the read started, the writer never holds EXCLUSIVE and never commits while the read is in progress, and can finish after it returned. non-trivial = states in which the writer holds RESERVED or more"
+	r.Rule = "writer scripts of a real SQLite connection in another process (small commit, two transactions back to back with synchronous FULL and OFF, rollback, spilling bulk insert with cache_size=1, a schema change spilled with a multi-page sqlite_master and then rolled back, commit blocked by a third reader = PENDING, locking_mode=EXCLUSIVE), journal modes DELETE (+TRUNCATE, PERSIST thorough), parked after EVERY statement; the table scanned by the long-lived handles spans more pages than the handle's page cache holds (so its older cache generation is in use); in every parked state every read operation (all low level and high level calls, the driver) runs on a fresh handle and on a long-lived handle; in addition one long-lived handle per SUBSET of the steps reads (Select on both tables, IndexedSelect) only at the steps of its subset and starting with each of the three operations in turn, so every read schedule of a long-lived handle is covered; a spilling writer on a database file without write permission bits; a script that commits schema changes (new table, a table and an index rebuilt under their old names with other content); and one handle OPENED in every parked state, read at every later step; the writer's lock level is read from /proc/locks; oracle: PENDING or EXCLUSIVE => error and zero rows; RESERVED/SHARED/UNLOCKED => success and exactly the last committed content (dumped by a separate SQLite reader). second family (mid-read): a Select / IndexedSelect parked in its row callback, on a fresh handle and on a handle opened before another process grew the file threefold; the writer (one page cache: it wants to spill) begins and updates every row at row j and tries COMMIT or ROLLBACK at row k, for every j <= k (and, for a third of them, with a select-like call made from the first row's callback on the same handle): no row of the unfinished transaction is delivered, the result equals the state committed when the read started, the writer never holds EXCLUSIVE and never commits while the read is in progress, and can finish after it returned. non-trivial = states in which the writer holds RESERVED or more"
 	defer c07MidRead(r)
 	dir := ev.TmpDir("c07")
 	defer os.RemoveAll(dir)
@@ -174,6 +182,12 @@ func runC07(r *ev.Run) {
 			}
 		}
 		R3.MustOK("open " + path)
+		if strings.Contains(sc.name, "read-only-file") {
+			if os.Geteuid() != 0 {
+				return // the writer could not write it either
+			}
+			os.Chmod(path, 0o444)
+		}
 		long, err := OpenEnv(path)
 		if err != nil {
 			r.Harness("open: %v", err)
